@@ -7,6 +7,10 @@ Two parts.
   is an execution the mutex implementation admits from lock state `s` (a writer excludes everybody,
   readers share, a release needs a matching hold).  `Sentinel.C15.discipline_implies_exclusion` is
   proved about these definitions once and for all.
+* **Further models built on these events** (in `Sentinel.Lemmas.LockDiscipline`, so that this file stays core-only):
+  a rule table guarded by one RW mutex with two-step swaps (`SEv`, `sAdm`, `pub` — the "settled switch" theorems
+  `request_reads_one_published_table`, `request_after_switch_reads_new_table`, `other_resources_switches_invisible`)
+  and `sync.Once` (`OEv`, `oAdm` — `once_body_runs_exactly_once`).
 * **Tables.**  The types of the rows `go/cmd/extract15` generates from the Go source on every run
   (`Sentinel.Gen.Access`), and the *decision procedures* (`Bool`-valued, evaluated by the kernel on the
   generated table) together with the `Prop`s they decide.  Names are interned to `Nat` by the
